@@ -508,13 +508,23 @@ func ruleTrimAmount(c *Ctx) {
 			if !ok {
 				return
 			}
-			if ld, ok := sl.X.(*ssa.UnOp); !ok || ld.Op != token.MUL || sym(ld.X) != sym(fa) {
-				return
-			}
 			if _, isStr := fa.Type().Underlying().(*types.Pointer).Elem().Underlying().(*types.Slice); !isStr {
 				return
 			}
 			if _, fld := fieldVarOf(fa); fld.Name() != "X" && fld.Name() != "Y" {
+				return
+			}
+			if ld, ok := sl.X.(*ssa.UnOp); !ok || ld.Op != token.MUL || sym(ld.X) != sym(fa) {
+				// a cut of ANOTHER span stored into this one: an edit's span is only ever cut onto itself
+				if ld, ok := sl.X.(*ssa.UnOp); ok && ld.Op == token.MUL {
+					if fa2, ok := ld.X.(*ssa.FieldAddr); ok {
+						if _, f2 := fieldVarOf(fa2); f2 != nil && (f2.Name() == "X" || f2.Name() == "Y") && types.Identical(fa2.Type(), fa.Type()) {
+							n++
+							c.sawFn(fnName(f))
+							c.bad("R-TRIM-AMOUNT", fmt.Sprintf("%s:span cut #%d onto itself", fnName(f), n), st.Pos(), fmt.Sprintf("the span %s is overwritten with a cut of %s: the lines of one span replace those of another (an edit's other side, or the neighbouring edit)", ksym(fa), ksym(fa2)))
+						}
+					}
+				}
 				return
 			}
 			var amount ssa.Value
@@ -525,6 +535,13 @@ func ruleTrimAmount(c *Ctx) {
 				if bo, ok := sl.High.(*ssa.BinOp); ok && bo.Op == token.SUB {
 					if ln, ok := isBuiltinCall(bo.X, "len"); ok && sym(ln.Call.Args[0]) == sym(sl.X) {
 						amount = bo.Y
+					} else if ok {
+						if _, f2 := loadedField(ln.Call.Args[0]); f2 != nil && (f2.Name() == "X" || f2.Name() == "Y") {
+							n++
+							c.sawFn(fnName(f))
+							c.bad("R-TRIM-AMOUNT", fmt.Sprintf("%s:span cut #%d measured on itself", fnName(f), n), st.Pos(), fmt.Sprintf("the span %s is cut back to the length of another span (%s) less the overlap: what remains has nothing to do with its own length (and the slice expression panics when the other span is longer)", ksym(fa), ksym(ln.Call.Args[0])))
+							return
+						}
 					}
 				}
 			}
